@@ -906,6 +906,12 @@ func vnConnSpec(p []byte) []any {
 			return []any{"seq", len(p), int(p[0])}
 		}
 	}
+	if len(p) > 4000 {
+		// cannot happen with the payloads generated here (long ones are
+		// sequences and a read never spans two records): keep the trace
+		// small, the model will disagree
+		return []any{"big", len(p)}
+	}
 	return []any{"lit", vnHex(p)}
 }
 
@@ -1046,7 +1052,7 @@ func (t *vnCn) writeAll(d int, p []byte, pclean int) {
 		if vnConnCode(err) != 8 {
 			return
 		}
-		if t.r.intn(4) == 0 {
+		if t.pending(d) && t.r.intn(4) == 0 {
 			// a write while the record is pending must be refused
 			q := t.r.bytes(1 + t.r.intn(5))
 			if t.r.intn(3) == 0 {
@@ -1059,6 +1065,10 @@ func (t *vnCn) writeAll(d int, p []byte, pclean int) {
 		}
 		t.flushAll(d, 50)
 		done := t.acct[d] - before
+		if done > len(p) || done < 0 {
+			// impossible for a correct Flush; the predicate reports the counts
+			done = len(p)
+		}
 		t.sent[d] = append(t.sent[d], p[:done]...)
 		p = p[done:]
 		if len(p) == 0 {
@@ -1153,7 +1163,7 @@ func (t *vnCn) available(d int) bool {
 // net.Conn that takes part of a Write and times out, Conn.Read in odd buffer
 // sizes, ReadNextMessage / ReadNextHeader+ReadNextBody.  Replayed by the model
 // (Noise/Exec.v kop) and checked by the predicate (bytes out == bytes in).
-func vnConnCase(r *vrng) map[string]any {
+func vnNewConnPair(r *vrng) *vnCn {
 	s := &vnSession{rs: vnKey(r), ls: vnKey(r), ei: vnKey(r), er: vnKey(r)}
 	s.target = s.rs.PubKey()
 	init, resp := s.machines()
@@ -1169,6 +1179,52 @@ func vnConnCase(r *vrng) map[string]any {
 	t := &vnCn{r: r}
 	t.conns[1] = &Conn{conn: &vnConn{r: r.fork(1), buf: ab, rbuf: ba}, noise: init}
 	t.conns[0] = &Conn{conn: &vnConn{r: r.fork(2), buf: ba, rbuf: ab}, noise: resp}
+	return t
+}
+
+func (t *vnCn) row() map[string]any {
+	return map[string]any{"kind": "conn", "ops": t.ops,
+		"equal": []bool{bytes.Equal(t.sent[0], t.got[0]), bytes.Equal(t.sent[1], t.got[1])},
+		"sent":  []int{len(t.sent[0]), len(t.sent[1])}, "got": []int{len(t.got[0]), len(t.got[1])},
+		"acct": []int{t.acct[0], t.acct[1]}, "torn": []bool{t.torn[0], t.torn[1]},
+		"maxmsg": math.MaxUint16}
+}
+
+// thorough tier: Conn.Write of L bytes with the j-th net.Conn Write call
+// answered (k, e); the caller retries Flush and writes the remainder; the peer
+// reads everything
+func vnConnSweepCase(r *vrng, L, j, k, e int) map[string]any {
+	t := vnNewConnPair(r)
+	d := 1
+	p := vnSeq(L, L%251)
+	sc := make([][2]int, j+1)
+	for i := range sc {
+		sc[i] = [2]int{1 << 30, 0}
+	}
+	sc[j] = [2]int{k, e}
+	t.nc(d).install(sc)
+	n, err := t.conns[d].Write(p)
+	t.acct[d] += n
+	t.ops = append(t.ops, vnOp{"cw", vnB(d), vnConnSpec(p), vnScriptJSON(sc), n,
+		vnConnCode(err), t.nc(d).calls, t.nc(d).took, t.pending(d)})
+	t.flushAll(d, 100)
+	done := t.acct[d]
+	if done > len(p) || done < 0 {
+		done = len(p)
+	}
+	t.sent[d] = append(t.sent[d], p[:done]...)
+	if done < len(p) {
+		t.writeAll(d, p[done:], 100)
+	}
+	for i := 0; i < 600 && t.available(d); i++ {
+		t.read(d)
+	}
+	t.read(d)
+	return t.row()
+}
+
+func vnConnCase(r *vrng) map[string]any {
+	t := vnNewConnPair(r)
 	nw := 3 + r.intn(7)
 	big := 0
 	for i := 0; i < nw; i++ {
@@ -1241,11 +1297,7 @@ func vnConnCase(r *vrng) map[string]any {
 			t.read(d)
 		}
 	}
-	return map[string]any{"kind": "conn", "ops": t.ops,
-		"equal": []bool{bytes.Equal(t.sent[0], t.got[0]), bytes.Equal(t.sent[1], t.got[1])},
-		"sent":  []int{len(t.sent[0]), len(t.sent[1])}, "got": []int{len(t.got[0]), len(t.got[1])},
-		"acct": []int{t.acct[0], t.acct[1]}, "torn": []bool{t.torn[0], t.torn[1]},
-		"maxmsg": math.MaxUint16}
+	return t.row()
 }
 
 func TestVerifNoise(t *testing.T) {
@@ -1274,5 +1326,30 @@ func TestVerifNoise(t *testing.T) {
 	}
 	if ntr > 0 {
 		out.emit(vnConfusionCase(master.fork(400000)))
+	}
+	if vEnvInt("VERIF_CONN_SWEEP", 0) != 0 {
+		idx := uint64(500000)
+		for _, L := range []int{65534, 65535, 65536, 65537, 2*65535 - 1, 2 * 65535, 2*65535 + 1,
+			3 * 65535, 3*65535 + 1} {
+			chunks := (L + 65534) / 65535
+			for j := 0; j < 2*chunks; j++ {
+				buflen := encHeaderSize
+				if j%2 == 1 {
+					cl := L - 65535*(j/2)
+					if cl > 65535 {
+						cl = 65535
+					}
+					buflen = cl + macSize
+				}
+				for _, ke := range [][2]int{{0, 0}, {buflen - macSize - 1, 0}, {buflen - macSize, 0},
+					{buflen - 1, 0}, {buflen, 1}} {
+					if ke[0] < 0 {
+						continue
+					}
+					out.emit(vnConnSweepCase(master.fork(idx), L, j, ke[0], ke[1]))
+					idx++
+				}
+			}
+		}
 	}
 }
